@@ -234,6 +234,7 @@ func visitInstr(fr *frame, instr ssa.Instruction) continuation {
 		fr.set(instr, fr.get(instr.Tuple).(tuple)[instr.Index])
 
 	case *ssa.Slice:
+		fr.i.cx.curFn = fr.fn.String()
 		fr.set(instr, slice(fr.i.cx, fr.get(instr.X), fr.get(instr.Low), fr.get(instr.High), fr.get(instr.Max)))
 
 	case *ssa.Return:
